@@ -55,6 +55,9 @@ type referenceTracker struct {
 	// updates that are being processed
 	updates ModelUpdates
 
+	// updates made so far as a result of reference tracking
+	referenceUpdates *ModelUpdates
+
 	// references are the updated references by the set of updates processed
 	references database.References
 
@@ -94,6 +97,7 @@ func (rt *referenceTracker) processReferences(updates ModelUpdates) (ModelUpdate
 
 func (rt *referenceTracker) processReferencesLoop(updates ModelUpdates) (ModelUpdates, error) {
 	referenceUpdates := ModelUpdates{}
+	rt.referenceUpdates = &referenceUpdates
 
 	// references can be transitive and deleting them can lead to further
 	// references having to be removed so loop until there are no updates to be
@@ -543,6 +547,13 @@ func (rt *referenceTracker) getModel(table, uuid string) (model.Model, error) {
 		// model has been deleted
 		return nil, nil
 	}
+	// look for the model in the updates made by reference tracking on
+	// previous iterations, those are the most recent
+	if rt.referenceUpdates != nil {
+		if model := rt.referenceUpdates.GetModel(table, uuid); model != nil {
+			return model, nil
+		}
+	}
 	// look for the model in the updates
 	model := rt.updates.GetModel(table, uuid)
 	if model != nil {
@@ -561,6 +572,13 @@ func (rt *referenceTracker) getRow(table, uuid string) (*ovsdb.Row, error) {
 	if _, deleted := rt.deleted[uuid]; deleted {
 		// row has been deleted
 		return nil, nil
+	}
+	// look for the row in the updates made by reference tracking on previous
+	// iterations, those are the most recent
+	if rt.referenceUpdates != nil {
+		if row := rt.referenceUpdates.GetRow(table, uuid); row != nil {
+			return row, nil
+		}
 	}
 	// look for the row in the updates
 	row := rt.updates.GetRow(table, uuid)
